@@ -428,6 +428,31 @@ def gen_arc_case(r, maxops, queue):
             "dec": dec, "inp": rand_nb(r, part), "outp": rand_nb(r, part), "ops": ops}
 
 
+def gen_altarc_case(r, maxops):
+    c = gen_arc_case(r, maxops, True)
+    c["kind"] = "altarc"
+    c["cls"] = "DecayArcAlt" if c["cls"] == "DecayArc" else "AltQueueArc"
+    # no pulls (unsupported by the class); no arc-level force (used nowhere in the library; a forced over-capacity
+    # push makes later admitted volumes negative, where the dict-with-gaps and the dense model differ in qualities)
+    c["ops"] = [((op[0], op[1], False, op[3]) if op[0] == "push" else op)
+                for op in c["ops"] if op[0] not in ("pull", "pullcheck")] or [("end",)]
+    # several timesteps without a request are what the alternative queue is sensitive to
+    if r.random() < 0.5:
+        c["ops"] = c["ops"] + [("end",)] * r.randint(1, 3) + [("push", push_amount(r, Part(c["adds"], c["nons"]), c["cap"]), False, 0)]
+    return c
+
+
+def enc_altarc_py(part, a):
+    zero = part.d((F(0), [F(0)] * part.na, [F(0)] * part.nn))
+    out = enc_arc_py(part, a)
+    for k in range(BUCKETS):
+        out += part.ev(a.queue.get(k, zero))
+    out += [max(a.queue.keys()) + 1]
+    out += part.ev(a.queue_storage) + part.ev(a.queue_storage_)
+    out += part.ev(a.total_decayed if hasattr(a, "total_decayed") else zero)
+    return out
+
+
 def enc_qarc_py(part, a):
     out = enc_arc_py(part, a)
     out += [len(a.queue)]
@@ -450,10 +475,16 @@ def run_arc_impl(c):
         a = getattr(arcs, cls)(**kw)
     elif cls == "QueueArc":
         a = arcs.QueueArc(number_of_timesteps=c["n"], **kw)
+    elif cls == "AltQueueArc":
+        a = arcs.AltQueueArc(number_of_timesteps=c["n"], **kw)
+    elif cls == "DecayArcAlt":
+        decs = {c["adds"][k]: {"constant": Ex(p[0]), "exponent": Ex(p[1])} for k, p in enumerate(c["dec"])}
+        a = arcs.DecayArcAlt(decays=decs, parent=inp, number_of_timesteps=c["n"], **kw)
     else:
         decs = {c["adds"][k]: {"constant": Ex(p[0]), "exponent": Ex(p[1])} for k, p in enumerate(c["dec"])}
         a = arcs.DecayArc(decays=decs, number_of_timesteps=c["n"], **kw)
-    queue = c["kind"] == "qarc"
+    queue = c["kind"] in ("qarc", "altarc")
+    alt = c["kind"] == "altarc"
     out = []
     for op in c["ops"]:
         k = op[0]
@@ -482,7 +513,7 @@ def run_arc_impl(c):
                 out += part.ev(a.mass_balance_ds[0]())
         elif k == "setT":
             inp.data_input_dict[("temperature", 0)] = Ex(op[1])
-        out += (enc_qarc_py(part, a) if queue else enc_arc_py(part, a)) + inp.enc() + outp.enc()
+        out += (enc_altarc_py(part, a) if alt else enc_qarc_py(part, a) if queue else enc_arc_py(part, a)) + inp.enc() + outp.enc()
     return out
 
 
@@ -515,6 +546,9 @@ def arc_expr(c):
     if c["kind"] == "arc":
         k = {"Arc": "KArc", "PullArc": "KPullArc", "PushArc": "KPushArc"}[c["cls"]]
         return f"run_arc {na} {nn} {k} (a_init {C.qlit(c['cap'])}) {st} [{'; '.join(ops)}]"
+    if c["kind"] == "altarc":
+        return (f"run_altarc {na} {nn} {BUCKETS} (l_set_T (l_init {C.qlit(c['cap'])} {c['n']} {lit_dec(c['dec'])}) (20#1)) {st} "
+                f"[{'; '.join(ops)}]")
     return (f"run_qarc {na} {nn} (q_set_T (q_init {C.qlit(c['cap'])} {c['n']} {lit_dec(c['dec'])}) (20#1)) {st} "
             f"[{'; '.join(ops)}]")
 
@@ -528,6 +562,7 @@ FAMILIES = {
     "qtank": (gen_qtank_case, run_qtank_impl, qtank_expr),
     "arc": (lambda r, m: gen_arc_case(r, m, False), run_arc_impl, arc_expr),
     "qarc": (lambda r, m: gen_arc_case(r, m, True), run_arc_impl, arc_expr),
+    "altarc": (gen_altarc_case, run_arc_impl, arc_expr),
 }
 
 
